@@ -212,6 +212,107 @@ def _week_py(ctx):
     return m, fn, formula, atoms, wraps
 
 
+def _rs_week_tabulate(ctx, mir, sf) -> bool | None:
+    """RSWEEK.tabulated: the compiled week-date conversion decided on values: every path of Parser::iso_to_ymd (MIR, symbolic execution of
+    its basic blocks) is evaluated for (year, week, weekday) triples around every bound - its branch conditions with the checker's
+    evaluator (comparisons, RangeInclusive::contains of literal / promoted ranges; is_long_year and week_day stand for what C15 decides
+    them to be, the standard library's) - : exactly one path applies; it must be an Err exactly when the week or the weekday does not exist in
+    that ISO year, and otherwise hand ordinal_to_ymd the year, the ordinal of that day (date.fromisocalendar) and `true`."""
+    import datetime as _dt
+    rel = "rust/src/parsing.rs"
+    f = mir.fn("iso_to_ymd")
+    promoted = {}
+    for mo in re.finditer(r"^const [^\n]*iso_to_ymd::promoted\[(\d+)\][^\n]*= \{(.*?)^\}", mir.text, re.S | re.M):
+        r_ = re.search(r"RangeInclusive::<\w+>::new\(const (\d+)_\w+, const (\d+)_\w+\)", mo.group(2))
+        if r_:
+            promoted[int(mo.group(1))] = ("range", int(r_.group(1)), int(r_.group(2)))
+
+    def ev(n, env):
+        if isinstance(n, ast.Constant):
+            return n.value
+        if isinstance(n, ast.Name):
+            if n.id in env:
+                return env[n.id]
+            mo = re.fullmatch(r"K_.*iso_to_ymd_promoted_(\d+)_", n.id)
+            if mo and int(mo.group(1)) in promoted:
+                return promoted[int(mo.group(1))]
+            raise core.Unsupported(f"name `{n.id}`")
+        if isinstance(n, ast.UnaryOp) and isinstance(n.op, ast.Not):
+            return not ev(n.operand, env)
+        if isinstance(n, ast.BinOp) and isinstance(n.op, (ast.Add, ast.Sub, ast.Mult)):
+            a, b = ev(n.left, env), ev(n.right, env)
+            return a + b if isinstance(n.op, ast.Add) else a - b if isinstance(n.op, ast.Sub) else a * b
+        if isinstance(n, ast.Compare) and len(n.ops) == 1:
+            a, b = ev(n.left, env), ev(n.comparators[0], env)
+            return {ast.Gt: a > b, ast.GtE: a >= b, ast.Lt: a < b, ast.LtE: a <= b, ast.Eq: a == b, ast.NotEq: a != b}[type(n.ops[0])]
+        if isinstance(n, ast.BoolOp):
+            vals = [ev(v, env) for v in n.values]
+            return all(vals) if isinstance(n.op, ast.And) else any(vals)
+        if isinstance(n, ast.Tuple) and len(n.elts) == 2:            # RangeInclusive::contains(range, &x)
+            r_ = ev(n.elts[0], env)
+            if isinstance(r_, tuple) and r_[:1] == ("range",):
+                return r_[1] <= ev(n.elts[1], env) <= r_[2]
+        if isinstance(n, ast.Call):
+            fn_ = un(n.func).split(".")[-1]
+            args = [ev(a, env) for a in n.args]
+            if fn_ == "is_long_year" and len(args) == 1:
+                return _dt.date(args[0], 12, 28).isocalendar()[1] == 53
+            if fn_ == "week_day" and len(args) == 3:
+                return _dt.date(*args).isoweekday()
+            if fn_ == "new" and len(args) == 2:
+                return ("range", args[0], args[1])
+            if fn_ in ("", "contains") and len(args) == 2 and isinstance(args[0], tuple) and args[0][:1] == ("range",):
+                return args[0][1] <= args[1] <= args[0][2]          # RangeInclusive::contains(range, &x)
+            if fn_ in ("from", "i32", "u32") and len(args) == 1:
+                return args[0]
+        raise core.Unsupported(f"`{un(n)[:60]}` is outside the evaluator")
+    try:
+        paths = mirsym.Sym(f, sf).run(0, mirsym.NEVER)
+        bad, n = [], 0
+        for y in (2004, 2015, 2016, 2020, 2021, 2026):
+            long_ = _dt.date(y, 12, 28).isocalendar()[1] == 53
+            for w in (0, 1, 2, 26, 51, 52, 53, 54, 99):
+                for d in (0, 1, 4, 7, 8, 9):
+                    env = {"iso_year": y, "iso_week": w, "iso_day": d, "self": None, "True": True, "False": False}
+                    live = []
+                    for p in paths:
+                        ok = True
+                        for c, k in p.conds:
+                            cb = mirsym.cond_bool(c, k)
+                            if cb is None:
+                                raise core.Unsupported(f"non-boolean branch on `{un(c)[:50]}`")
+                            ok = ok and bool(ev(cb[0], env)) == cb[1]
+                        if ok:
+                            live.append(p)
+                    if len(live) != 1:
+                        raise core.Unsupported(f"{len(live)} paths apply to ({y}, {w}, {d})")
+                    r_ = live[0].state.get("_0")
+                    n += 1
+                    valid = 1 <= w <= (53 if long_ else 52) and 1 <= d <= 7
+                    is_err = isinstance(r_, ast.Call) and un(r_.func) == "Err"
+                    if not valid:
+                        if not is_err:
+                            bad.append(f"{y}-W{w:02d}-{d} is accepted (no such {'week' if not 1 <= w <= (53 if long_ else 52) else 'weekday'})")
+                        continue
+                    if is_err:
+                        bad.append(f"{y}-W{w:02d}-{d} is rejected")
+                        continue
+                    if not (isinstance(r_, ast.Call) and un(r_.func).endswith("ordinal_to_ymd") and len(r_.args) == 4):
+                        raise core.Unsupported(f"result `{un(r_)[:60] if isinstance(r_, ast.AST) else r_}`")
+                    got = (ev(r_.args[1], env), ev(r_.args[2], env), ev(r_.args[3], env))
+                    want = (y, (_dt.date.fromisocalendar(y, w, d) - _dt.date(y, 1, 1)).days + 1, True)
+                    if got != want:
+                        bad.append(f"{y}-W{w:02d}-{d}: ordinal_to_ymd{got} (expected {want})")
+    except (core.Unsupported, core.AnchorMissing, KeyError, TypeError, AttributeError, IndexError, ValueError) as e:
+        ctx.unverified("RSWEEK.tabulated", "rs:iso_to_ymd", f"outside the evaluator: {type(e).__name__}: {e}", rel)
+        return None
+    ctx.ob("RSWEEK.tabulated", "rs:iso_to_ymd", not bad, f"{n} (year, week, weekday) triples evaluated on the MIR paths: " + (f"wrong: {bad[:3]}" if bad else
+           "rejected exactly when the week or weekday does not exist, otherwise the ordinal of that day"), rel)
+    if not bad:
+        ctx.established(("WEEKDATE.formula", "WEEKDATE.guards", "WEEKDATE.wrap"), "rs:iso_to_ymd", "RSWEEK.tabulated")
+    return not bad
+
+
 def _week(ctx, mir, sf) -> None:
     m, fn, formula, atoms, wraps = _week_py(ctx)
     want = E(_WC, "W * 7 + D - (week_day(Y, 1, 4) + 3)")
@@ -225,6 +326,7 @@ def _week(ctx, mir, sf) -> None:
            f"year wrap {wraps}; an ordinal < 1 borrows the previous year's length, one beyond the year moves on", m.loc(fn))
     if mir is None:
         return
+    _rs_week_tabulate(ctx, mir, sf)
     f = mir.fn("iso_to_ymd")
     sym = mirsym.Sym(f, sf)
     can = Canon({"iso_week": "W", "iso_day": "D", "iso_year": "Y"})
@@ -530,10 +632,11 @@ def _rs_offset_tabulate(ctx, mir, sf) -> None:
     n = bad = 0
     first = None
     covered = set()
+    shaped: set = set()
     try:
         for sign in "+-":
             for with_min in (False, True):
-                for hh in (0, 1, 5, 14, 23):
+                for hh in (0, 1, 5, 12, 14, 23):
                     for mm in ((0,) if not with_min else (0, 30, 59)):
                         env = {"H": hh, "M": mm}
                         live = []
@@ -562,10 +665,16 @@ def _rs_offset_tabulate(ctx, mir, sf) -> None:
                                         good = good and bool(_rs_eval(v, env)) == cb[1]
                             if good:
                                 live.append(off)
+                        want = (1 if sign == "+" else -1) * (hh * 3600 + mm * 60)
                         if not live:
+                            if (sign, with_min) in shaped:
+                                # paths for this spelling exist, and every one of them has a recognised condition this input violates: it is rejected
+                                n += 1
+                                bad += 1
+                                first = first or f"{sign}{hh:02d}{':%02d' % mm if with_min else ''} is rejected (no accepting path; it denotes {want} s)"
                             continue
                         covered.add((sign, with_min))
-                        want = (1 if sign == "+" else -1) * (hh * 3600 + mm * 60)
+                        shaped.add((sign, with_min))
                         for off in live:
                             n += 1
                             got = _rs_eval(off, env)
